@@ -337,9 +337,13 @@ def groupedCmp (idxs : List Nat) (asc : List Bool) (a b : List (Str × Str)) : O
   | i :: is, d :: ds =>
     let x := (a[i]?.map (·.2)).getD []
     let y := (b[i]?.map (·.2)).getD []
+    -- integers exactly, other numbers by value (D66 fix), the rest as text
     let o := match parseI64? x, parseI64? y with
       | some m, some n => ordOfBool (m < n) (m == n)
-      | _, _ => cmpText x y
+      | _, _ =>
+        match parseF64? x, parseF64? y with
+        | some u, some v => (match u.cmp? v with | some c => c | none => cmpText x y)
+        | _, _ => cmpText x y
     let o := if d then o else ordRev o
     if o != .eq then o else groupedCmp is ds a b
   | _, _ => .eq
